@@ -98,6 +98,14 @@ class Reserved:
 
 	def __init__(self, library_names: set[str]) -> None:
 		self.words: set[str] = set(keyword.kwlist) | set(keyword.softkwlist) | set(dir(builtins)) | {'self', 'cls', 'super', '_'} | set(library_names) | CPP_KEYWORDS
+		# 3c is too wide for MEMBER names: a method / field of a user class may be called `items`, `pop`, `on`, … — tranp decides by
+		# the TYPE of the receiver there (Generated/C08Names.lean, `name_sites_guarded`), so these spellings are ordinary fresh names
+		# for members. Set by the harness from the generated table (translate/gen_c08_names.member_words).
+		self.member_words: set[str] = set()
+
+	def allow_member_words(self, words: Any) -> None:
+		hard = set(keyword.kwlist) | set(keyword.softkwlist) | set(dir(builtins)) | {'self', 'cls', 'super', '_'} | CPP_KEYWORDS
+		self.member_words = {w for w in words if IDENT_RE.fullmatch(w) and w not in hard and self.underscore_class(w) == 0}
 
 	@staticmethod
 	def underscore_class(name: str) -> int:
@@ -109,11 +117,13 @@ class Reserved:
 			return 1
 		return 0
 
-	def is_reserved(self, name: str) -> bool:
+	def is_reserved(self, name: str, kind: str | None = None) -> bool:
+		if kind in ('method', 'field', 'classvar') and name in self.member_words:
+			return False
 		return name in self.words or self.underscore_class(name) == 3
 
-	def fresh_ok(self, name: str, original: str) -> bool:
-		return bool(IDENT_RE.fullmatch(name)) and not self.is_reserved(name) and self.underscore_class(name) == self.underscore_class(original)
+	def fresh_ok(self, name: str, original: str, kind: str | None = None) -> bool:
+		return bool(IDENT_RE.fullmatch(name)) and not self.is_reserved(name, kind) and self.underscore_class(name) == self.underscore_class(original)
 
 
 # ---------------------------------------------------------------------------------------------
@@ -304,7 +314,7 @@ def renaming_domain(source: str, reserved: Reserved) -> dict[str, str]:
 	vocab = emitter_vocabulary()
 	strings = data_string_words(source)
 	derived = prefix_aliased(source)
-	return {n: k for n, k in user_identifiers(source).items() if not reserved.is_reserved(n) and n not in vocab and n not in strings and n not in derived}
+	return {n: k for n, k in user_identifiers(source).items() if not reserved.is_reserved(n, k) and n not in vocab and n not in strings and n not in derived}
 
 
 # ---------------------------------------------------------------------------------------------
@@ -1075,6 +1085,109 @@ class NestGen:
 			self.module_vars.append((n, ty))
 			self.count('decl:module-var')
 		return '\n'.join(lines) + '\n'
+
+
+PLAIN_MEMBERS = ['pairs', 'numbers', 'labels', 'bump', 'title', 'amount', 'entries', 'cells', 'tally', 'caption', 'grow', 'weight', 'marks', 'stamp', 'rows', 'shift_by']
+
+
+def generate_spelling(rng: random.Random, slots: dict[str, str] | None = None, avoid: Any = ()) -> tuple[str, dict[str, str]]:
+	"""A program around ONE user class whose members are used where tranp looks at member SPELLINGS: as the iterated call of a `for`
+	statement (with and without tuple unpacking), of list / dict comprehensions, as a call in expression and statement position,
+	as a field that is read and written. Slots `pairs` (-> list[tuple[str, int]]), `nums` (-> list[int]), `calc` (int -> int),
+	`text` (-> str), `field` (an int field) carry ordinary names here; the search renames them INTO the spellings of the generated
+	table. Receivers: a parameter, a local built by the constructor, a field of another object, `self`, a constructor call.
+	No library container method is used, so every member token of the program and of its output is the user's."""
+	r = rng
+	names = dict(slots) if slots else dict(zip(('pairs', 'nums', 'calc', 'text', 'field'), r.sample([p for p in PLAIN_MEMBERS if p not in avoid], 5)))
+	cls, holder = r.choice([('Bag', 'Shelf'), ('Sack', 'Rack'), ('Pouch', 'Crate')])
+	obj, other = r.choice([('bag', 'shelf'), ('sack', 'rack'), ('it', 'outer')])
+	P, N, C, T, F = names['pairs'], names['nums'], names['calc'], names['text'], names['field']
+	lines = [
+		f'class {cls}:',
+		'\tn: int',
+		f'\t{F}: int',
+		'',
+		'\tdef __init__(self, n: int) -> None:',
+		'\t\tself.n = n',
+		f'\t\tself.{F} = n + 1',
+		'',
+		f'\tdef {P}(self) -> list[tuple[str, int]]:',
+		f"\t\treturn [('a', self.n), ('b', self.{F})]",
+		'',
+		f'\tdef {N}(self) -> list[int]:',
+		f'\t\treturn [self.n, self.{F}, 2]',
+		'',
+		f'\tdef {C}(self, d: int) -> int:',
+		f'\t\tself.{F} = self.{F} + d',
+		f'\t\treturn self.{F} + self.n',
+		'',
+		f'\tdef {T}(self) -> str:',
+		"\t\treturn 'x'",
+		'',
+	]
+	if r.random() < 0.6:
+		lines += [
+			'\tdef total(self) -> int:',
+			'\t\tacc = 0',
+			f'\t\tfor q in self.{N}():',
+			'\t\t\tacc += q',
+			f'\t\tfor k0, v0 in self.{P}():',
+			'\t\t\tacc += v0',
+			f'\t\treturn acc + self.{C}(1)',
+			'',
+		]
+	with_holder = r.random() < 0.5
+	if with_holder:
+		lines += [
+			f'class {holder}:',
+			f'\tinner: {cls}',
+			'',
+			f'\tdef __init__(self, inner: {cls}) -> None:',
+			'\t\tself.inner = inner',
+			'',
+			'\tdef walk(self) -> int:',
+			'\t\tacc = 0',
+			f'\t\tfor k1, v1 in self.inner.{P}():',
+			'\t\t\tacc += v1',
+			f'\t\tfor m1 in self.inner.{N}():',
+			'\t\t\tacc += m1',
+			f'\t\tself.inner.{C}(2)',
+			f'\t\treturn acc + self.inner.{F}',
+			'',
+		]
+	recv = obj
+	head = f'def use({obj}: {cls}) -> int:'
+	pre: list[str] = []
+	if r.random() < 0.35:
+		head = 'def use(seed: int) -> int:'
+		pre = [f'\t{obj} = {cls}(seed)']
+	body = [head, *pre, '\ttotal = 0']
+	stmts = [
+		[f'\tfor k, v in {recv}.{P}():', '\t\ttotal += v', '\t\tprint(k)'],
+		[f'\tfor n in {recv}.{N}():', '\t\ttotal += n'],
+		[f'\txs = [n2 + 1 for n2 in {recv}.{N}()]', '\ttotal += len(xs)'],
+		[f'\tys = [v2 for k2, v2 in {recv}.{P}()]', '\ttotal += len(ys)'],
+		[f'\tzs = {{k3: v3 for k3, v3 in {recv}.{P}()}}', '\ttotal += len(zs)'],
+		[f'\ttotal += {recv}.{C}(3)'],
+		[f'\t{recv}.{C}(1)'],
+		[f'\ts = {recv}.{T}()', '\tprint(s)'],
+		[f'\t{recv}.{F} = {recv}.{F} + total', f'\ttotal += {recv}.{F}'],
+		[f'\tws = {recv}.{N}()', '\ttotal += len(ws)'],
+		[f'\tfor j in {cls}(2).{N}():', '\t\ttotal += j'],
+	]
+	r.shuffle(stmts)
+	keep = stmts[:r.randint(5, len(stmts))]
+	# the two `for` statements over a member call are the point of the exercise: always there
+	for must in (f'\tfor k, v in {recv}.{P}():', f'\tfor n in {recv}.{N}():'):
+		if not any(st[0] == must for st in keep):
+			keep.append(next(st for st in stmts if st[0] == must))
+	for st in keep:
+		body += st
+	body.append('\treturn total')
+	lines += body
+	src = '\n'.join(lines) + '\n'
+	ast.parse(src)
+	return src, names
 
 
 def generate_nest(rng: random.Random, size: int = 2) -> tuple[str, dict[str, int]]:
